@@ -30,6 +30,24 @@ func vcross(a, b vec) vec {
 func vnorm(a vec) float64     { return math.Sqrt(vdot(a, a)) }
 func vangle(a, b vec) float64 { return math.Atan2(vnorm(vcross(a, b)), vdot(a, b)) }
 
+// gcAngle: central angle between two positions given in degrees.  Below 10 km the unit vectors
+// lose the separation in their low bits (1e-16 rad against 1.5e-8 rad at 10 cm), so the angle is
+// taken from the haversine of the coordinate differences, which are formed in degrees (exact for
+// nearby values) before the conversion to radians; every term is positive, so the result is good
+// to a few 1e-16 relative.  Above 10 km the vector formula (independent of the haversine) is used.
+func gcAngle(lat1, lon1, lat2, lon2 float64) float64 {
+	const rad = math.Pi / 180
+	dlat := (lat2 - lat1) * rad
+	dlon := wrap180(lon2-lon1) * rad
+	sa, so := math.Sin(dlat/2), math.Sin(dlon/2)
+	a := sa*sa + math.Cos(lat1*rad)*math.Cos(lat2*rad)*so*so
+	h := 2 * math.Atan2(math.Sqrt(a), math.Sqrt(1-a))
+	if h*6378137 < 10000 {
+		return h
+	}
+	return vangle(toVec(lat1, lon1), toVec(lat2, lon2))
+}
+
 // segDist: great-circle distance (radians) from p to the arc a-b, end caps included.
 func segDist(p, a, b vec) float64 {
 	n := vcross(a, b)
@@ -230,18 +248,18 @@ func addC18Case(ctx *Ctx, in c18Input) {
 	detail := map[string]any{}
 	switch in.Kind {
 	case "pair":
-		truth := vangle(toVec(in.Lat1, in.Lon1), toVec(in.Lat2, in.Lon2)) * radius
+		truth := gcAngle(in.Lat1, in.Lon1, in.Lat2, in.Lon2) * radius
 		d := p.Distance(in.Lat1, in.Lon1, in.Lat2, in.Lon2)
 		d2 := p.Distance(in.Lat2, in.Lon2, in.Lat1, in.Lon1)
-		// the float64 oracle cannot resolve below a few nanometres (coordinates in degrees carry ~1e-9 m)
-		checks["default-accuracy-1e-9"] = math.Abs(d-truth) <= 1e-9*truth+5e-9*radius/6378137
+		// the oracle is good to a few 1e-16 relative at every separation of the quantifier (see gcAngle)
+		checks["default-accuracy-1e-9"] = math.Abs(d-truth) <= 1e-9*truth*(1+1e-5)
 		checks["symmetric"] = relErr(d, d2) <= 1e-12 || d == d2
 		checks["zero-only-for-identical"] = (d == 0) == (in.Lat1 == in.Lat2 && in.Lon1 == in.Lon2) || truth < 1e-9
 		d10 := geo.NewProcessor(geo.Radius(radius*10)).Distance(in.Lat1, in.Lon1, in.Lat2, in.Lon2)
 		checks["linear-in-radius"] = relErr(d10, 10*d) <= 1e-12
 		if truth*6378137/radius < 10000 && math.Abs(in.Lat1) < 80 && math.Abs(in.Lat2) < 80 {
 			f := fast.Distance(in.Lat1, in.Lon1, in.Lat2, in.Lon2)
-			checks["fast-accuracy-1e-5"] = math.Abs(f-truth) <= 1e-5*truth+5e-9*radius/6378137
+			checks["fast-accuracy-1e-5"] = math.Abs(f-truth) <= 1e-5*truth*(1+1e-5)
 			detail["fast"] = f
 		}
 		detail["distance"], detail["truth"] = d, truth
